@@ -48,10 +48,11 @@ def classify(case, msg):
 
 def run(ctx):
     ctx.make_overlay(need_kernel=True)
-    ctx.regen_all(needed=("py2v_reject.py",))  # Gen/RejectSites.v: the four rejection sites as the source has them now
+    ctx.regen_all(needed=("py2v_reject.py", "py2v_entry.py"))  # Gen/RejectSites.v: the four rejection sites as the source has them now
     ok = ctx.build_models(MODELS + ["Model/Iterative.vo", "Gen/ConstsGen.vo"])
     if ok:
         ctx.build_props()
+        ctx.build_props("Props/C06g.vo")  # the generated entry-point routing: ln_prior from the library's own column, cut at the same row as the library
         ctx.build_props("Props/C02g.vo")  # the generated rejection sites (rule, truncation, index spaces, columns) are the model
     cases = load_corpus("C06") + c02.gen_cases(ctx, return_logprobs=True, n_cases=90 if ctx.tier == "quick" else 900)
     n_eval = nt = 0
